@@ -1013,12 +1013,12 @@ impl EncryptedEntry for Vault {
         commit: CommitHash,
         secret: VaultEntry,
     ) -> Result<WriteEvent> {
-        let value = self
-            .contents
-            .data
-            .entry(id)
-            .or_insert(VaultCommit(commit, secret));
-        Ok(WriteEvent::CreateSecret(id, value.clone()))
+        // Callers may choose identifiers (and a merge may replay a
+        // create event for a secret that already exists): the last
+        // write wins, the same as the vault mirrors behave
+        let value = VaultCommit(commit, secret);
+        self.contents.data.insert(id, value.clone());
+        Ok(WriteEvent::CreateSecret(id, value))
     }
 
     async fn read_secret<'a>(
